@@ -47,12 +47,21 @@ func allBins(s store.Store, viaProto bool) []model.Bin {
 	return out
 }
 
-func TestC17(t *testing.T) {
-	rapid.Check(t, func(t *rapid.T) {
+func TestC17(t *testing.T) { rapid.Check(t, func(t *rapid.T) { c17Case(t, false) }) }
+
+// TestC17_ExtremeFanout: a very coarse source mapping (alpha 0.5..0.95) converted to a very fine one so that ONE source
+// bin spreads over 2e5..4e6 target bins (dense or paginated target). Few cases, each costly.
+func TestC17_ExtremeFanout(t *testing.T) { rapid.Check(t, func(t *rapid.T) { c17Case(t, true) }) }
+
+func c17Case(t *rapid.T, extreme bool) {
+	{
 		cl := newCase("C17")
 		// ---- mappings
 		k1 := rapid.SampledFrom(gen.MapKinds).Draw(t, "kind1")
 		a1 := gen.Alpha(1e-3, 0.5).Draw(t, "alpha1")
+		if extreme {
+			a1 = rapid.Float64Range(0.5, 0.95).Draw(t, "alpha1x")
+		}
 		s1 := gen.MapSpec{Kind: k1, FromAlpha: true, Alpha: a1, Nominal: a1}
 		m1, err := s1.Build()
 		if err != nil {
@@ -62,7 +71,15 @@ func TestC17(t *testing.T) {
 		var s2 gen.MapSpec
 		scale := 1.0
 		rel := rapid.SampledFrom([]string{"equal", "finer", "coarser", "aligned", "aligned", "other"}).Draw(t, "relation")
+		if extreme {
+			rel = "extreme-fanout"
+		}
 		switch rel {
+		case "extreme-fanout":
+			// ln(gamma1)/ln(gamma2) = number of target bins per source bin
+			fan := gen.LogUniform(2e5, 4e6).Draw(t, "fanout")
+			s2 = gen.MapSpec{Kind: rapid.SampledFrom(gen.MapKinds).Draw(t, "kind2"), FromAlpha: true, Alpha: math.Log((1+a1)/(1-a1)) / fan / 2}
+			cl.labelIf(fan > 1.1e6, "fanout>2^20")
 		case "equal":
 			s2 = s1
 		case "finer":
@@ -99,6 +116,9 @@ func TestC17(t *testing.T) {
 		exact := rapid.Bool().Draw(t, "exact")
 		srcKind := gen.NonCollapsingKind().Draw(t, "srckind")
 		tgtKind := gen.NonCollapsingKind().Draw(t, "tgtkind")
+		if extreme {
+			tgtKind = gen.StoreKind{Name: rapid.SampledFrom([]string{"dense", "paginated"}).Draw(t, "tgtkindx")}
+		}
 		sc := skCfg{spec: s1, m: m1, pos: srcKind, neg: srcKind, exact: exact}
 		cl.logf("C17 %s -> %s (%s) scale=%v target=%s", sc, s2, rel, scale, tgtKind)
 		cl.label("relation:" + rel)
@@ -117,6 +137,16 @@ func TestC17(t *testing.T) {
 		unit := rapid.Bool().Draw(t, "unitweights")
 		n := rapid.IntRange(1, 60).Draw(t, "n")
 		var pool []float64
+		if extreme {
+			// one or two source bins close to each other (memory of a dense target)
+			v1 := gen.LogUniform(1e-2, 1e2).Draw(t, "v")
+			pool = []float64{v1}
+			if rapid.Bool().Draw(t, "secondbin") {
+				pool = append(pool, v1*rapid.Float64Range(1, 30).Draw(t, "v2f"))
+			}
+			shape = "extreme"
+			n = rapid.IntRange(1, 5).Draw(t, "nx")
+		}
 		switch shape {
 		case "single-bin":
 			pool = []float64{gen.LogUniform(1e-4, 1e4).Draw(t, "v")}
@@ -379,8 +409,8 @@ func TestC17(t *testing.T) {
 		stats.Count("C17", "quantile_queries", int64(len(qs)))
 		cl.labelIf(len(k.neg) > 0, "negative-side")
 		cl.label("shape:" + shape)
-		cl.done(len(k.pos)+len(k.neg) >= 2)
-	})
+		cl.done(extreme || len(k.pos)+len(k.neg) >= 2)
+	}
 }
 
 var _ mapping.IndexMapping
